@@ -498,3 +498,160 @@ def r9_alloc_sites_do_not_cover_null(ctx):
 
 
 RULES += [r9_alloc_sites_do_not_cover_null]
+
+
+def r10_size_relation_only_for_plain_equality(ctx):
+    ctx.rule("C15.r10", "ref_assume: the constraint p == q + k is translated to the SIZE ghost variables only for k = 0 (p and q point into "
+             "the same object, so their sizes are equal - they do not differ by k); translating it with the offset makes the true "
+             "assumption q == p + 4 after q := gep(p, 4) bottom when region.is_dereferenceable tracks sizes", floor=1)
+    n = 0
+    for fn in _fns(ctx, "ref_assume")[:1]:
+        body = fn["body"]
+        g = paths.guards(body)
+        for c in walk(body):
+            if not (is_call(c, name="convert_ref_cst_to_linear_cst") and len(c.get("a", [])) == 2 and "SIZE" in src(c["a"][1])):
+                continue
+            n += 1
+
+            def zero_offset(x):
+                p = cmp_parts(x)
+                if p and p[0] in ("==", "!=") and any(is_call(strip(z), name="offset") for z in (p[1], p[2])) and \
+                        any(isinstance(strip(z), dict) and (strip(z).get("v") == "0" or any(isinstance(y, dict) and y.get("k") == "lit" and y.get("v") == "0" for y in walk(z)))
+                            for z in (p[1], p[2])):
+                    return 1 if p[0] == "==" else -1
+                return 0
+            if guard_truth(g.get(id(c), ()), zero_offset, body) is True:
+                ctx.ok("SIZE ghosts related only under offset() == 0", fn, c)
+            else:
+                ctx.bad("region_domain::ref_assume translates `p == q + k` to the SIZE ghost variables with the offset k: after q := gep(p, 4) "
+                        "the true assumption q == p + 4 adds size(q) == size(p) + 4 and the state becomes bottom", fn, c,
+                        sig="size-related-with-offset")
+    if n == 0:
+        ctx.fail("rule C15.r10: the SIZE translation of ref_assume was not found")
+
+
+RULES += [r10_size_relation_only_for_plain_equality]
+
+
+def r11_region_cast_overwrites_contents(ctx):
+    ctx.rule("C15.r11", "region_cast(src, dst): on every non-bottom path the CONTENTS of dst (its ghost variables) are either assigned from "
+             "src or forgotten - updating the reference counter / type of dst alone lets a later load from dst return the value it "
+             "held before the cast", floor=1)
+    n = 0
+    for fn in _fns(ctx, "region_cast")[:1]:
+        body = fn["body"]
+        decls = local_decls(body)
+        lambdas = {d["id"]: d for d in decls.values() if isinstance(strip(d.get("i")), dict) and strip(d["i"]).get("k") == "lambda"}
+        # lambdas that write / forget the ghost variables of their first parameter
+        writers = set()
+        for lid, d in lambdas.items():
+            lb = strip(d["i"]).get("b")
+            if any(is_call(c, name=("assign", "assign_bool_var", "array_assign", "forget")) for c in walk(lb)):
+                writers.add(lid)
+
+        def mentions_dst(e):
+            return any(is_param(x, fn, 1) for x in walk(e) if isinstance(x, dict) and x.get("k") == "ref")
+
+        def gen(x):
+            if x.get("k") == "call" and x.get("op") == "()" and isinstance(strip(x.get("o")), dict) and strip(x["o"]).get("id") in writers and \
+                    x.get("a") and mentions_dst(x["a"][0]):
+                return ("contents",)
+            if is_call(x, name=("forget_region_ghost_vars", "forget")) and any(mentions_dst(a) for a in x.get("a", [])):
+                return ("contents",)
+            return ()
+
+        def refine(cond, pol):
+            if is_call(strip(cond), name="is_bottom") and pol:
+                return ("contents",)
+            return ()
+        fl = paths.MustEvents(gen, refine=refine)
+        try:
+            fl.run(body)
+        except paths.Unstructured:
+            ctx.undecided("region_cast: unstructured control flow", fn, body)
+            continue
+        n += 1
+        miss = [(r, st) for r, st in fl.returns if "contents" not in st]
+        if miss:
+            r = miss[0][0]
+            ctx.bad("region_domain::region_cast can return without assigning or forgetting the contents of the destination region (the cast "
+                    "from an untracked unknown region, or with an incompatible dynamic type, is `skipped`): D holds 5, region_cast(U, D) "
+                    "with U holding 7, then x := load(D) still gives x = 5", fn, r if r is not None else body, sig="region-cast-stale-contents")
+        else:
+            ctx.ok("region_cast assigns or forgets the contents of dst on every path", fn, body)
+    if n == 0:
+        ctx.fail("rule C15.r11: region_cast not decided")
+
+
+RULES += [r11_region_cast_overwrites_contents]
+
+
+def r12_store_updates_sites_and_tags(ctx):
+    ctx.rule("C15.r12", "ref_store: every path that records the new state of the region (m_rgn_env.set(rgn, ..)) has joined / set the "
+             "allocation sites and the tags of the stored value into the region's environments (when the parameter is on and the value "
+             "is a reference variable / a variable) - also the paths on which the write into the region's CONTENTS is skipped "
+             "(dynamic type top or incompatible), because ref_load copies the region's sites and tags to the loaded reference", floor=1)
+    n = 0
+    for fn in _fns(ctx, "ref_store")[:1]:
+        body = fn["body"]
+        decls = local_decls(body)
+        rgn_ids = {p["id"] for i, p in enumerate(fn.get("params", [])) if i == 1}
+        lam_alloc, lam_tag = set(), set()
+        for d in decls.values():
+            i = strip(d.get("i")) if "i" in d else None
+            if isinstance(i, dict) and i.get("k") == "lambda":
+                if any(is_call(c, name="set") and is_field(strip(c.get("o")), "m_alloc_env") for c in walk(i.get("b"))):
+                    lam_alloc.add(d["id"])
+                if any(is_call(c, name="set") and is_field(strip(c.get("o")), "m_tag_env") for c in walk(i.get("b"))):
+                    lam_tag.add(d["id"])
+
+        def gen(x):
+            out = []
+            if is_call(x, name="set") and is_field(strip(x.get("o")), "m_alloc_env"):
+                out.append("alloc")
+            if is_call(x, name="set") and is_field(strip(x.get("o")), "m_tag_env"):
+                out.append("tag")
+            if is_call(x, name="set") and is_field(strip(x.get("o")), "m_rgn_env"):
+                out.append("commit")
+            if x.get("k") == "call" and x.get("op") == "()" and isinstance(strip(x.get("o")), dict):
+                if strip(x["o"]).get("id") in lam_alloc:
+                    out.append("alloc")
+                if strip(x["o"]).get("id") in lam_tag:
+                    out.append("tag")
+            return out
+
+        def refine(cond, pol):
+            c = strip(cond)
+            if is_call(c, name="region_allocation_sites") and not pol:
+                return ("alloc",)
+            if is_call(c, name="region_tag_analysis") and not pol:
+                return ("tag",)
+            if is_call(c, name="is_reference") and not pol:
+                return ("alloc",)
+            if is_call(c, name="is_variable") and not pol:
+                return ("alloc", "tag")
+            if is_call(c, name="is_reference_null") and pol:
+                return ("alloc",)
+            return ()
+        fl = paths.MustEvents(gen, refine=refine)
+        try:
+            fl.run(body)
+        except paths.Unstructured:
+            ctx.undecided("ref_store: unstructured control flow", fn, body)
+            continue
+        n += 1
+        miss = [(r, st) for r, st in fl.returns if "commit" in st and not ("alloc" in st and "tag" in st)]
+        if miss:
+            r, st = miss[0]
+            what = "allocation sites" if "alloc" not in st else "tags"
+            ctx.bad("region_domain::ref_store records the new state of the region on a path that never adds the %s of the stored value to "
+                    "the region (a store whose write into the contents is skipped): an unknown region holding a reference allocated at "
+                    "as_1, store of a reference allocated at as_2, then a load reports the sites {as_1}" % what, fn, r if r is not None else body,
+                    sig="store-skips-%s" % ("alloc-sites" if "alloc" not in st else "tags"))
+        else:
+            ctx.ok("every committing path of ref_store updates the region's sites and tags", fn, body)
+    if n == 0:
+        ctx.fail("rule C15.r12: ref_store not decided")
+
+
+RULES += [r12_store_updates_sites_and_tags]
